@@ -234,6 +234,8 @@ func runC15(c *Ctx) {
 
 	c.Rule("C15-D8", "a refused CONNECT can be retried (F51): onConnectError sets the socket's state back to disconnected", 1)
 	connectErrorResetsState(c, "C15-D8")
+	c.Rule("C15-D9", "a reconnection cycle that is given up leaves the 'reconnecting' state (F67, known finding): in Manager.reconnect every path from `state = reconnecting` to a return sets the state back to disconnected or goes on to connect", 1)
+	abandonedReconnectLeavesState(c, "C15-D9")
 	c15EmitterModifiers(c)
 
 	c.Rule("C15-D4", "a new outage starts a new back-off cycle, and volatile means volatile everywhere: Manager.onClose resets the attempt counter on every path — whatever the reason and whether or not it starts a reconnect "+
